@@ -53,7 +53,19 @@ def plain_arg(node, value):
 
 
 def apply_op(op, root, node, model, labels):
-    """-> ("ok", assigned path | None) | Raised | ("skip",).  `model` is updated in place on success."""
+    """-> ("ok", assigned path | None) | Raised | ("skip",).  `model` is updated in place on success.
+    One op in three addresses the items of arrays of dynamically sized items from the end (negative indices)."""
+    mat.NEG_INDEX = op["int"] % 3 == 0
+    try:
+        r = _apply_op(op, root, node, model, labels)
+    finally:
+        mat.NEG_INDEX = False
+    if op["int"] % 3 == 0 and not is_raised(r) and r[0] == "ok" and r[1] and "array_of_dynamic_items" in tg.type_labels(node.spec):
+        labels.add("negative_index_addressing")
+    return r
+
+
+def _apply_op(op, root, node, model, labels):
     spec = node.spec
     kind = op["kind"]
     if kind == "grow":
@@ -134,6 +146,12 @@ def apply_op(op, root, node, model, labels):
             return float(int(base)) + ctr[0] * 0.5
 
         new = mat.map_scalars(cspec, cur, fresh, strings=op["int"] % 3 == 0)
+        if op["int"] % 4 == 3:
+            # references held directly by the element become null through the whole-element assignment
+            for rp, _rs in mat.ref_slots(cspec, new):
+                if all(st_[0] != "d" for st_ in rp) and mat.model_get(cspec, new, rp)[1] is not None:
+                    mat.model_set(cspec, new, rp, None)
+                    labels.add("op:compound_nulls_a_reference")
         cnode, _ = mat.node_at(node, model, path)
         arg = plain_arg(cnode, new)
         if cspec["k"] == "array" and cspec["item"]["k"] == "scalar" and op["int"] % 2 == 0 and isinstance(arg, list):
